@@ -18,7 +18,8 @@ META = {
     "text": "Unbounded theorems (any list, any assignment) on the Gallina model of _select_sublist: existence+uniqueness of the satisfied entry and equality of its sublist with the ordered list of true solutions. "
             "The model is compared with the real generator on random (term,node) lists (exact output incl. enumeration order). "
             "The real findall/all builtins are recorded on generated programs (findall_target dump, results, enumerate_branches outputs, list given to _select_sublist, outputs) and compared with ModelBranches (eb, mult, all_proofs+sort_mx, findall_model, all_out); the hypotheses of C19_findall_lists_partition (copy_node/add_and keys have the value of the conjunction) and its conclusion are judged on the real data by exhaustive assignments. "
-            "Whole findall/3, all/3 programs are judged against exhaustive world enumeration done in the harness (exact rationals).",
+            "Whole findall/3, all/3 programs are judged against exhaustive world enumeration done in the harness (exact rationals)."
+            " The rest of the findall machinery is modelled too (enumerate_branches, get_node_multiplicity, the max-node ordering, findall/all output lists): branches are equivalent to the node (acyclic graphs, and cyclic graphs under any stable model), and the result lists partition the assignments in the explicit sort_mx order; tied by recording the real builtins' calls.",
     "note": "Trusted: Coq kernel+vm_compute; hand model of _select_sublist (sampled correspondence); the harness world enumerator for propositional findall programs; "
             "hand model of enumerate_branches/get_node_multiplicity/_builtin_findall_base/_builtin_all (sampled correspondence on recorded calls); target node numbering abstracted (pn, cn) under the builder-correctness hypothesis checked per call; "
             "solution ORDER: the model fixes 'stable sort by mx'; that this is Prolog order is NOT proved (known findings).",
